@@ -36,6 +36,9 @@ class VDI(AlignedStream):
         super().__init__(size=self.header.DiskSize)
 
     def _read(self, offset: int, length: int) -> bytes:
+        # The stream layer reads whole buffers, don't read past the end of the disk
+        length = min(length, self.size - offset)
+
         block_idx, block_offset = divmod(offset, self.block_size)
 
         bytes_read = []
